@@ -319,6 +319,8 @@ var qReqSpecs = []reqSpec{
 	{Keys: 3, Push: 2, Forced: true},
 	{Keys: 0, Push: 1, Reason: 1},
 	{Keys: 2, Push: 2, Addr: 1},
+	{Keys: 0, Push: 1, Forced: true},            // ProxyUpdate: forced, no keys
+	{Keys: 1, Push: 2, Forced: true, Reason: 1}, // AdsPushAll of a global push: forced, empty key set
 }
 
 type ghostAcc struct {
@@ -531,7 +533,7 @@ func replayQ(ncon int, hist []qop) (*qworld, string, string) {
 func TestC02b(t *testing.T) {
 	env := engine.GetEnv()
 	res := engine.NewResult("C02", "b-pushqueue")
-	res.Rule = "explicit-state BFS: state = op history replayed on a fresh real PushQueue; ops Enqueue(c,r)/Dequeue/MarkDone(c)/ShutDown over 2 connections x 4 shared requests; dedup on canonical (queue order, per-connection ghost accumulation, processing, shutdown); non-trivial = state in which some connection has a merged (>=2 inputs) request"
+	res.Rule = "explicit-state BFS: state = op history replayed on a fresh real PushQueue; ops Enqueue(c,r)/Dequeue/MarkDone(c)/ShutDown over 2 connections x 6 shared requests; dedup on canonical (queue order, per-connection ghost accumulation, processing, shutdown); non-trivial = state in which some connection has a merged (>=2 inputs) request"
 	defer res.Write(t, env)
 	if env.Replay != "" {
 		var rp struct {
